@@ -364,7 +364,7 @@ def _w_mttkrp(case, ctx, rng, shape, N):
     A, H = _ground(case, rng, shape)
     n, R = case["n"], case["R"]
     U = [gen.normals(rng, (s, R)) for s in shape]
-    w = np.round(rng.uniform(0.5, 2.0, R), 4) * rng.choice([-1.0, 1.0], size=R)
+    w = gen.weight_vector(rng, R)
     ctx.feat(nnzc=_nnzc(A), ukind=case["ukind"], n=n)
     if case["ukind"] == "ktensor":
         Uarg = ttb.ktensor([u.copy() for u in U], w.copy())
@@ -384,7 +384,7 @@ def _w_mttkrps(case, ctx, rng, shape, N):
     T = gen.mk_tensor(ttb, A, case.get("hist", "ctor"))
     R = case["R"]
     U = [gen.normals(rng, (s, R)) for s in shape]
-    w = np.round(rng.uniform(0.5, 2.0, R), 4)
+    w = gen.weight_vector(rng, R, signed=False)
     ctx.feat(ukind=case["ukind"])
     Uarg = ttb.ktensor([u.copy() for u in U], w.copy()) if case["ukind"] == "ktensor" else [u.copy() for u in U]
     got, ok = _try(ctx, "tensor.mttkrps", T.mttkrps, Uarg)
